@@ -262,7 +262,8 @@ namespace vh
     PR_C05 = 1u << 4,  PR_C06 = 1u << 5,  PR_C07 = 1u << 6,  PR_C09 = 1u << 7,
     PR_C10 = 1u << 8,  PR_C11 = 1u << 9,  PR_C12 = 1u << 10, PR_C13 = 1u << 11,
     PR_C14 = 1u << 12, PR_C15 = 1u << 13, PR_C16 = 1u << 14, PR_C18 = 1u << 15,
-    PR_TRACE = 1u << 20   // record the full observation trace digest (C13 twin, C17)
+    PR_TRACE = 1u << 20,  // record the full observation trace digest (C13 twin, C17)
+    PR_TRACE_ALLOCS = 1u << 21   // also mix allocate counts into the trace (C13 twin only)
   };
 
   struct RunOptions
